@@ -129,17 +129,5 @@ def main():
 
 
 def replay(path):
-    d = json.load(open(path))
-    run = Run("C07")
-    ensure_driver()
-    bins = builds(run)
-    case = Case.from_json(d.get("case") or d.get("first_differing_case"))
-    diff = mk_diff(run, bins)
-    impl, model, spec = diff.eval_cases([case])
-    bad = False
-    for b, v in impl.items():
-        if diff.applicable(case, b):
-            print(b, "impl ", v[0]); bad = bad or v[0] != spec[0]
-    print("model", model[0]); print("spec ", spec[0])
-    print("REPRODUCED" if bad else "not reproduced")
-    return 1 if bad else 0
+    run = Run("C07"); ensure_driver(); bins = builds(run)
+    return generic_replay(mk_diff(run, bins), path)
